@@ -315,7 +315,7 @@ struct Engine : public vf::Engine {
                 else if (x < 45) { o.kind = H_CALLOC; o.a = (int64_t)w.below((uint64_t)nSlots);
                     if (w.chance(1, 2)) { o.b = w.small(0, 40); o.c = w.small(0, 40); }
                     else { static const uint64_t ns[] = { 2, 3, 4, 8, 16, 256, 65536, 4294967296ULL, 1ULL << 33, 1ULL << 62 }; uint64_t n = ns[w.below(10)]; uint64_t tgt = w.chance(1, 2) ? 0 : (1ULL << 63); uint64_t q = (tgt - 1) / n + (uint64_t)w.range(-2, 3); if (tgt == 0) q = (UINT64_MAX / n) + (uint64_t)w.range(-1, 2); o.b = (int64_t)n; o.c = (int64_t)q; } }
-                else if (x < 55) { o.kind = H_STRDUP; o.a = (int64_t)w.below((uint64_t)nSlots); o.c = w.small(0, 300); o.b = w.chance(1, 2) ? -1 : (int64_t)(w.chance(1, 2) ? (uint64_t)o.c + (uint64_t)w.range(0, 3) - 1 : (uint64_t)w.small(0, 400)); if (o.b < -1) o.b = 0; }
+                else if (x < 55) { o.kind = H_STRDUP; o.a = (int64_t)w.below((uint64_t)nSlots); o.c = w.small(0, 300); o.b = w.chance(1, 2) ? -1 : (int64_t)(w.chance(1, 2) ? (uint64_t)o.c + (uint64_t)w.range(0, 3) - 1 : (uint64_t)w.small(0, 400)); if (o.b < -1) o.b = 0; if (w.chance(1, 8)) o.b = -2 - (int64_t)w.below(4); }      // n = SIZE_MAX, SIZE_MAX-1, ...
                 else if (x < 68) { o.kind = H_REALLOC; o.a = (int64_t)w.below((uint64_t)nSlots); o.c = (int64_t)(w.chance(4, 5) ? (size_t)w.small(0, 3000) : boundarySize(w)); }
                 else if (x < 88) { o.kind = H_FREE; o.a = (int64_t)w.below((uint64_t)nSlots); }
                 else if (x < 92) { o.kind = H_QUERY; o.a = (int64_t)w.below(4); }
@@ -453,6 +453,7 @@ struct Engine : public vf::Engine {
         }
         size_t tp = t.find("Total number of leaks: ");
         long tot = tp == Str::npos ? -1 : atol(t.c_str() + tp + 23);
+        if (tot != (long)total) fail(W, "C04", "report_total", sg("what", tp == Str::npos ? "footer missing" : "wrong total"), sfmt("op %zu: report states %ld leaks, model %zu", opIdx, tot, total));
         if (tot != (long)total) fail(W, "C14", "true_total", sg("what", tp == Str::npos ? "footer missing" : "wrong total"), sfmt("op %zu: report states %ld leaks, model %zu (listed %zu, truncated %d)", opIdx, tot, total, got.size(), (int)truncated));
         if (!truncated && got.size() < total) fail(W, "C14", "too_many_notice", sg("what", "entries dropped without notice"), sfmt("op %zu: %zu of %zu listed", opIdx, got.size(), total));
     }
@@ -525,7 +526,7 @@ struct Engine : public vf::Engine {
                 size_t size = (size_t)o.c;
                 Str src;
                 if (o.kind == H_CALLOC) size = (size_t)o.b * (size_t)o.c;
-                if (o.kind == H_STRDUP) { src.assign((size_t)o.c, 'x'); for (size_t k = 0; k < src.size(); k++) src[k] = (char)('a' + k % 23); size = o.b < 0 ? src.size() + 1 : ((size_t)o.b < src.size() ? (size_t)o.b : src.size()) + 1; }
+                if (o.kind == H_STRDUP) { src.assign((size_t)o.c, 'x'); for (size_t k = 0; k < src.size(); k++) src[k] = (char)('a' + k % 23); size_t nArg = o.b <= -2 ? SIZE_MAX - (size_t)(-2 - o.b) : (size_t)o.b; size = o.b == -1 ? src.size() + 1 : (nArg < src.size() ? nArg : src.size()) + 1; }
                 bool overflowingCalloc = o.kind == H_CALLOC && o.b != 0 && (size_t)o.c > SIZE_MAX / (size_t)o.b;
                 TestMemoryAllocator* alloc = route == 2 ? currentFor(fam) : W.famAllocator[fam];
                 size_t overhead = GUARD + 8 + sizeof(MemoryLeakDetectorNode);
@@ -543,7 +544,7 @@ struct Engine : public vf::Engine {
                 char* p = 0; bool threw = false, testFailure = false;
                 try {
                     if (o.kind == H_CALLOC) p = (char*)cpputest_calloc_location((size_t)o.b, (size_t)o.c, file, line);
-                    else if (o.kind == H_STRDUP) p = o.b < 0 ? cpputest_strdup_location(src.c_str(), file, line) : cpputest_strndup_location(src.c_str(), (size_t)o.b, file, line);
+                    else if (o.kind == H_STRDUP) p = o.b == -1 ? cpputest_strdup_location(src.c_str(), file, line) : cpputest_strndup_location(src.c_str(), o.b <= -2 ? SIZE_MAX - (size_t)(-2 - o.b) : (size_t)o.b, file, line);
                     else if (route == 2) {
                         // nothrow new x a platform that really returns NULL: the default allocator turns the NULL into a test failure that is
                         // thrown through the noexcept operator -> std::terminate. Recorded in DESIGN 5 as a suspected defect; not generated (it would kill the worker).
